@@ -138,7 +138,7 @@ def run_cases(tag, header, cases, shard=400, timeout=900):
     def one(kp):
         k, path = kp
         p = subprocess.run(['timeout', str(timeout), 'coqc', '-R', '.', 'PM', os.path.relpath(path, COQ)], cwd=COQ, stdout=subprocess.PIPE, stderr=subprocess.STDOUT, text=True)
-        m = re.search(r'=\s*\((\d+),\s*\[(.*?)\]\)', p.stdout, re.S)
+        m = re.search(r'=\s*\((\d+)(?:%nat)?,\s*\[(.*?)\]\)', p.stdout, re.S)
         if p.returncode != 0 or not m:
             return k, None, p.stdout[-1500:]
         return k, (int(m.group(1)), [int(x) for x in re.findall(r'\d+', m.group(2))]), ''
